@@ -168,9 +168,9 @@ def check_props_file(pid: str):
     }
 
 
-def coq_eval_bools(pid: str, exprs: list[str], shard=250, workers=14, imports="Exec.Run"):
-    """Evaluate boolean Coq expressions by vm_compute; returns (list of indices that are not
-    true, error text or None)."""
+def coq_eval_codes(pid: str, exprs: list[str], shard=250, workers=14, imports="Exec.Run"):
+    """Evaluate Coq expressions of type nat by vm_compute (0 = agrees, 1 = disagrees,
+    2 = outside the model's domain).  Returns ({index: code} for non-zero codes, error text or None)."""
     BUILD.mkdir(exist_ok=True)
     for old in BUILD.glob(f"cases_{pid}_*"):
         old.unlink()
@@ -179,10 +179,10 @@ def coq_eval_bools(pid: str, exprs: list[str], shard=250, workers=14, imports="E
         chunk = exprs[s:s + shard]
         name = f"cases_{pid}_{s // shard}"
         body = [f"From Dyce Require Import {imports}.", "Import ListNotations.", "Open Scope Z_scope.",
-                "Definition cases : list bool := ["]
+                "Definition cases : list nat := ["]
         body.append(";\n".join(chunk))
         body.append("].")
-        body.append("Eval vm_compute in (bad_indices cases).")
+        body.append("Eval vm_compute in (nonzero_codes cases).")
         p = BUILD / f"{name}.v"
         p.write_text("\n".join(body) + "\n")
         files.append((s, p))
@@ -192,18 +192,20 @@ def coq_eval_bools(pid: str, exprs: list[str], shard=250, workers=14, imports="E
         rc, out, err = run(["coqc", "-Q", str(COQ / "theories"), "Dyce", str(p)], 1500, cwd=BUILD)
         if rc != 0:
             return s, None, (out + err)[-3000:]
-        m = re.search(r"=\s*(\[.*?\])\s*:\s*list nat", out, flags=re.S)
+        m = re.search(r"=\s*(\[.*?\])\s*:\s*list \(nat \* nat\)", out, flags=re.S)
         if not m:
             return s, None, "unparsable coqc output: " + out[-500:]
-        return s, [int(x) for x in re.findall(r"\d+", m.group(1))], None
+        nums = [int(x) for x in re.findall(r"\d+", m.group(1))]
+        return s, list(zip(nums[0::2], nums[1::2])), None
 
-    bad, errors = [], []
+    codes, errors = {}, []
     with cf.ThreadPoolExecutor(max_workers=workers) as ex:
-        for s, idxs, e in ex.map(one, files):
+        for s, pairs, e in ex.map(one, files):
             if e is not None:
                 errors.append(f"shard at {s}: {e}")
             else:
-                bad.extend(s + i for i in idxs)
+                for i, c in pairs:
+                    codes[s + i] = c
     for _, p in files:
         for ext in (".vo", ".vok", ".vos", ".glob"):
             q = p.with_suffix(ext)
@@ -212,7 +214,12 @@ def coq_eval_bools(pid: str, exprs: list[str], shard=250, workers=14, imports="E
         aux = p.parent / ("." + p.stem + ".aux")
         if aux.exists():
             aux.unlink()
-    return sorted(bad), ("\n".join(errors) if errors else None)
+    return codes, ("\n".join(errors) if errors else None)
+
+
+def coq_eval_bools(pid, exprs, **kw):
+    codes, err = coq_eval_codes(pid, exprs, **kw)
+    return sorted(i for i, c in codes.items() if c == 1), err
 
 
 def coq_show(expr: str, imports="Exec.Run") -> str:
@@ -440,11 +447,12 @@ def main(pid: str, argv):
             if e == "MISMATCH":   # impl answer not expressible in the model's result type
                 mism.append(i)
                 continue
-            exprs.append(e)
+            exprs.append(e if getattr(mod, "CODES", False) else f"cb ({e})")
             idx_of.append(i)
         if ok:
-            bad, coq_err = coq_eval_bools(pid, exprs)
-            mism.extend(idx_of[b] for b in bad)
+            codes, coq_err = coq_eval_codes(pid, exprs)
+            mism.extend(idx_of[b] for b, c in codes.items() if c == 1)
+            skipped += sum(1 for c in codes.values() if c == 2)
             if coq_err:
                 violation({"property": pid, "kind": "correspondence-evaluation-failure",
                            "broken": "coqc failed while evaluating the model on generated cases",
@@ -543,8 +551,8 @@ def disagree(mod, pid, c, coq_ok):
         if e == "MISMATCH":
             return r
         if e is not None:
-            bad, cerr = coq_eval_bools(pid + "s", [e])
-            if bad and not cerr:
+            codes, cerr = coq_eval_codes(pid + "s", [e if getattr(mod, "CODES", False) else f"cb ({e})"])
+            if any(c == 1 for c in codes.values()) and not cerr:
                 return r
     return None
 
